@@ -934,3 +934,21 @@ mod tests {
             .unwrap();
     }
 }
+
+/// Verification hooks (property C20): read-only wrappers around the private hash-map folds.
+/// Compiled only with `--cfg linfa_verif`.
+#[cfg(linfa_verif)]
+pub mod verif_hooks_c20 {
+    use linfa::Label;
+    use std::collections::HashMap;
+
+    pub fn find_modal_class<L: Label>(class_freq: &HashMap<L, f32>) -> L {
+        super::find_modal_class(class_freq)
+    }
+    pub fn gini_impurity<L: Label>(class_freq: &HashMap<L, f32>) -> f32 {
+        super::gini_impurity(class_freq)
+    }
+    pub fn entropy<L: Label>(class_freq: &HashMap<L, f32>) -> f32 {
+        super::entropy(class_freq)
+    }
+}
